@@ -246,7 +246,16 @@ impl Gen {
             0..=2 => {
                 c.ty = CType::I16;
                 if self.rng.chance(250) {
-                    c.range = Some(*self.rng.pick(&[(-5, 100), (1, 32), (-32767, 32767), (0, 9), (-3, 3)]));
+                    c.range = Some(*self.rng.pick(&[
+                        (-5, 100),
+                        (1, 32),
+                        (-32767, 32767),
+                        (0, 9),
+                        (-3, 3),
+                        (-32768, 32767),
+                        (0, 50000),
+                        (-40000, 40000),
+                    ]));
                 }
             }
             3..=4 => {
@@ -362,7 +371,7 @@ impl Gen {
                 c.category = Some(self.rng.pick(&CATEGORIES).to_string());
             }
             if self.rng.chance(250) {
-                let lists: [&[&str]; 9] = [
+                let lists: [&[&str]; 13] = [
                     &["a;b", "c"],
                     &[""],
                     &["a", ""],
@@ -372,6 +381,10 @@ impl Gen {
                     &["one", "two", "three", "four"],
                     &[";"],
                     &["a", "a"],
+                    &["A ", " B", "two words"],
+                    &[" "],
+                    &["x", " "],
+                    &["Tab\t", "\tlead", "x\ny"],
                 ];
                 c.enums = self.rng.pick(&lists).iter().map(|s| s.to_string()).collect();
                 if self.rng.chance(100) {
@@ -410,6 +423,40 @@ impl Gen {
 
     fn gen_row(&mut self, t: &TableM) -> Vec<Val> {
         t.cols.iter().map(|c| self.gen_value(c, c.key)).collect()
+    }
+
+    /// A row whose strings all exist already (a pure reference-count bump).
+    fn gen_row_reusing(&mut self, t: &TableM) -> Vec<Val> {
+        let mut pool: Vec<String> = Vec::new();
+        for (_, tm) in self.model.tables.iter().filter(|(_, x)| !x.catalog) {
+            for r in tm.rows.iter().take(40) {
+                for v in r.iter() {
+                    if let Val::Str(s) = v {
+                        pool.push(s.clone());
+                    }
+                }
+            }
+        }
+        t.cols
+            .iter()
+            .map(|c| {
+                if c.is_str() {
+                    for _ in 0..6 {
+                        if pool.is_empty() {
+                            break;
+                        }
+                        let cand = Val::Str(self.rng.pick(&pool).clone());
+                        if value_valid(c, &cand) {
+                            return cand;
+                        }
+                    }
+                    if c.nullable {
+                        return Val::Null;
+                    }
+                }
+                self.gen_value(c, c.key)
+            })
+            .collect()
     }
 
     fn gen_cond(&mut self, t: &TableM, depth: u32) -> Cond {
@@ -485,10 +532,11 @@ impl Gen {
         let table = self.rng.pick(&ts).clone();
         let t = self.model.tables.get(&table).unwrap().clone();
         let n = if self.rng.chance(500) { 1 } else { 1 + self.rng.usize_below(self.max_rows_per_insert) };
+        let reuse_only = self.rng.chance(180);
         let mut rows: Vec<Vec<Val>> = Vec::new();
         for _ in 0..n {
             for _attempt in 0..4 {
-                let r = self.gen_row(&t);
+                let r = if reuse_only { self.gen_row_reusing(&t) } else { self.gen_row(&t) };
                 let mut cand = rows.clone();
                 cand.push(r);
                 if self.model.plan_insert(&table, &cand).is_ok() {
@@ -1012,6 +1060,71 @@ impl Gen {
         }
     }
 
+    // ------------------------------------------------------------ choreographies
+
+    /// save; a statement that only bumps reference counts; save; release one
+    /// of the sharers; look at the others.  (Per-subsystem "modified" flags
+    /// make quiet sessions like this one a place where saving can go wrong.)
+    fn macro_quiet_bump(&mut self) {
+        let ts = self.user_plain_tables();
+        if ts.is_empty() {
+            return;
+        }
+        let table = self.rng.pick(&ts).clone();
+        let t = self.model.tables.get(&table).unwrap().clone();
+        if t.rows.is_empty() || !t.cols.iter().any(|c| c.is_str()) {
+            return;
+        }
+        let r1 = self.op_restart();
+        self.push(r1);
+        let t = self.model.tables.get(&table).unwrap().clone();
+        let mut done = false;
+        if self.rng.chance(600) {
+            for _ in 0..6 {
+                let row = self.gen_row_reusing(&t);
+                if let Ok(nt) = self.model.plan_insert(&table, &[row.clone()]) {
+                    self.model.tables.insert(table.clone(), nt);
+                    self.push(Op::Insert { table: table.clone(), rows: vec![row] });
+                    done = true;
+                    break;
+                }
+            }
+        } else {
+            // update a non-key string cell to a string that exists elsewhere
+            let cands: Vec<usize> = (0..t.cols.len()).filter(|&i| t.cols[i].is_str() && !t.cols[i].key).collect();
+            if let Some(&ci) = cands.first() {
+                let donor = t.rows[self.rng.usize_below(t.rows.len())][ci].clone();
+                if matches!(donor, Val::Str(_)) {
+                    let k0 = t.key_idx()[0];
+                    let target = t.rows[self.rng.usize_below(t.rows.len())][k0].clone();
+                    let cond = Some(Cond::Cmp(t.cols[k0].name.clone(), CmpOp::Eq, target));
+                    let sets = vec![(t.cols[ci].name.clone(), donor)];
+                    if let Ok(nt) = self.model.plan_update(&table, &sets, &cond) {
+                        self.model.tables.insert(table.clone(), nt);
+                        self.push(Op::Update { table: table.clone(), sets, cond });
+                        done = true;
+                    }
+                }
+            }
+        }
+        if !done {
+            return;
+        }
+        let r2 = self.op_restart();
+        self.push(r2);
+        let t = self.model.tables.get(&table).unwrap().clone();
+        if !t.rows.is_empty() {
+            let k0 = t.key_idx()[0];
+            let victim = t.rows[self.rng.usize_below(t.rows.len())][k0].clone();
+            let cond = Some(Cond::Cmp(t.cols[k0].name.clone(), CmpOp::Eq, victim));
+            if let Ok(nt) = self.model.plan_delete(&table, &cond) {
+                self.model.tables.insert(table.clone(), nt);
+                self.push(Op::Delete { table: table.clone(), cond });
+            }
+        }
+        self.push(Op::Observe);
+    }
+
     // ------------------------------------------------------------ live handles
 
     fn op_handle(&mut self) -> Option<Op> {
@@ -1063,6 +1176,10 @@ impl Gen {
                 self.push(op);
                 return;
             }
+        }
+        if matches!(self.profile, Profile::Clean | Profile::Benign | Profile::Crash | Profile::Reject) && self.rng.chance(35) {
+            self.macro_quiet_bump();
+            return;
         }
         let k = self.rng.weighted(&self.weights.clone());
         let odd = matches!(self.profile, Profile::Streams | Profile::Reject);
